@@ -30,26 +30,56 @@ var envPatterns = []string{
 var (
 	quotedRe = regexp.MustCompile("'[^']*'|\"[^\"]*\"|`[^`]*`")
 	numRe    = regexp.MustCompile(`[0-9]+`)
-	spaceRe  = regexp.MustCompile(`\s+`)
 )
 
-func classifyInvalid(v validRes) (cls string, env bool) {
-	m := v.msg
-	for _, p := range envPatterns {
-		if strings.Contains(m, p) {
-			return strings.ReplaceAll(strings.TrimSpace(p), " ", "-"), true
-		}
-	}
-	return v.stage + ":" + signature(m), false
+// structuralPatterns: the output is not in Caddy's config language at all (strict decoding,
+// module lookup, JSON typing) — never excusable by the input's values.
+var structuralPatterns = []string{
+	"unknown module", "module not registered", "decoding module config", "unknown field", "json:",
+	"invalid character", "cannot unmarshal", "unrecognized module", "module namespace", "is not a caddy",
 }
 
-// signature: the message with every quoted string, number and input-derived fragment removed.
-func signature(m string) string {
+var provRe = regexp.MustCompile(`(?:provision|validate) ([a-z0-9_.]+): `)
+
+// classifyInvalid returns the failure class and its kind:
+//
+//	"env"        the sandbox lacks a file / host / environment variable the input names
+//	"structural" the JSON is outside the config language (strict decode, unknown module/field, panic)
+//	"semantic"   a module's own Provision/Validate rejected a value the adapter passed through
+func classifyInvalid(v validRes) (cls string, kind string) {
+	m := v.msg
+	if v.stage == "decode" || v.stage == "panic" || v.stage == "hang" {
+		return "structural:" + v.stage + ":" + signature(m, 8), "structural"
+	}
+	for _, p := range structuralPatterns {
+		if strings.Contains(m, p) {
+			return "structural:" + signature(m[strings.Index(m, p):], 8), "structural"
+		}
+	}
+	for _, p := range envPatterns {
+		if strings.Contains(m, p) {
+			return strings.ReplaceAll(strings.TrimSpace(p), " ", "-"), "env"
+		}
+	}
+	if strings.Contains(m, "evaluated placeholder {env.") && strings.Contains(m, "is empty") {
+		return "unset-env-placeholder", "env"
+	}
+	mod, tail := "-", m
+	if loc := provRe.FindAllStringSubmatchIndex(m, -1); len(loc) > 0 {
+		l := loc[len(loc)-1]
+		mod, tail = m[l[2]:l[3]], m[l[1]:]
+	}
+	return "semantic:" + mod + ":" + signature(tail, 6), "semantic"
+}
+
+// signature: the first n words of the message with every quoted string, number and
+// input-derived fragment removed.
+func signature(m string, n int) string {
 	m = quotedRe.ReplaceAllString(m, "_")
 	m = numRe.ReplaceAllString(m, "N")
-	m = spaceRe.ReplaceAllString(m, " ")
-	if len(m) > 160 {
-		m = m[:160]
+	w := strings.Fields(m)
+	if len(w) > n {
+		w = w[:n]
 	}
-	return m
+	return strings.Join(w, "-")
 }
